@@ -999,6 +999,16 @@ pub fn run_case(c: &Case, cache: &mut Cache, st: &mut Stats) -> Result<(), (Stri
         st.changed = diff_bank(&x.data, &y.data).iter().map(|f| sig_field(f)).collect();
         st.changed.dedup();
     }
+    // a lender's balance may be purged only once the bank's sunset is complete (every debt discharged): before that,
+    // wiping a balance is not something deleveraging needs
+    if let Op::Purge { .. } = c.op {
+        if b_pre.flags & marginfi_type_crate::constants::TOKENLESS_REPAYMENTS_COMPLETE == 0 {
+            return Err((
+                format!("frame:{name}:bank-sunset-not-complete"),
+                format!("{name} by the risk admin succeeded on a bank that is not flagged TOKENLESS_REPAYMENTS_COMPLETE (flags before {:#b}): a user balance was wiped while the bank's debts are not discharged", b_pre.flags),
+            ));
+        }
+    }
     if c.part == 0 {
         let v = frame_violations(&w, &c.op, &target, &fr, &pre_store, &post_store);
         if let Some((f, d)) = v.first() {
